@@ -4,6 +4,7 @@ import verif as V
 
 PROP = "C12"
 PROPS = "props/C12.v"
+PROPS_C = "props/C12c.v"   # raw output modes exactly: verbatim bytes, NUL rejection iff, non-strings = JSON (coq/c12/RawExact.v)
 PROPS_B = "props/C12b.v"   # integration with C15: layout pass / raw modes / terminators agree (coq/integ/RenderAgree.v)
 STREAMS = ["longstrings", "strings", "floats", "containers", "run"]
 
@@ -75,6 +76,7 @@ def run(tier, seed):
         t0 = time.time()
     proved = c.prove(PROPS)
     proved = c.prove(PROPS_B) and proved
+    proved = c.prove(PROPS_C) and proved
     mark("prove")
     exe_h, hlog = V.build_harness("c12")
     mark("harness-build")
